@@ -2,8 +2,8 @@ package main
 
 import (
 	"fmt"
-	"regexp"
 	"math/big"
+	"regexp"
 	"strconv"
 	"strings"
 	"unicode"
@@ -485,6 +485,7 @@ type Contract struct {
 }
 
 type SpecFunc struct {
+	Reads  []string // heaps an uninterpreted spec function depends on
 	Name   string
 	Params []Param
 	Result string
@@ -742,6 +743,15 @@ func (ss *SpecSet) parseSpecText(file, pkgPath, text string) {
 			ss.Contracts[full] = c
 			cur = c
 			props = nil
+		case "pure":
+			// //@ pure pkg.F pkg.(*T).M ... : assumed to write no modelled state (trusted)
+			finish()
+			cur, curLemma = nil, nil
+			for _, name := range strings.Fields(rest) {
+				if ss.Contracts[name] == nil {
+					ss.Contracts[name] = &Contract{Key: name, External: true, Trusted: true, File: file, Line: ln + 1, Flags: map[string]bool{"pure-decl": true}, Sig: name}
+				}
+			}
 		case "property":
 			props = strings.Fields(rest)
 			if curLemma != nil {
@@ -828,12 +838,17 @@ func (ss *SpecSet) parseSpecText(file, pkgPath, text string) {
 				bodyText = strings.TrimSpace(sigText[i+1:])
 				sigText = strings.TrimSpace(sigText[:i])
 			}
+			var reads []string
+			if i := strings.Index(sigText, " reads "); i >= 0 {
+				reads = strings.Fields(strings.ReplaceAll(sigText[i+7:], ",", " "))
+				sigText = strings.TrimSpace(sigText[:i])
+			}
 			_, name, params, results, err := splitSig(sigText)
 			if err != nil {
 				errf(ln, "%v", err)
 				continue
 			}
-			sf := &SpecFunc{Name: name, Params: parseParamList(params), Result: strings.TrimSpace(results), Text: bodyText, File: file, Line: ln + 1}
+			sf := &SpecFunc{Reads: reads, Name: name, Params: parseParamList(params), Result: strings.TrimSpace(results), Text: bodyText, File: file, Line: ln + 1}
 			if word == "pred" {
 				sf.Result = "bool"
 			}
